@@ -12,6 +12,13 @@ def nontrivial(f, impl, model, spec):
     return any(t in f[4] for t in ("(p ", "(sl ", "(m ", "(st ", "(ar "))
 
 
+def oracle(f, impl):
+    # ops on types with user methods carry no spec= column: the range clause still applies
+    if f[2] == "cmpeq":
+        return impl == "true"
+    return impl in ("-1", "0", "1")
+
+
 def run(rep):
     rep.cov["rule"] = ("type corpus as for C02 restricted to what plugin/compare supports (no unnamed structs) x all ordered pairs of "
                        "the value pool, aliased pairs, single-position mutations in both orders; distinct = distinct (op, type, pair) "
@@ -21,7 +28,7 @@ def run(rep):
     common.proof_part(rep, "C03", thorough_checker=(rep.tier == "thorough"))
     info = common.prepare_corpus(rep.tier, rep.seed, PLUGINS)
     rep.cov["corpus"] = info["stats"]
-    common.compare_corpus(rep, info, OPS, nontrivial=nontrivial)
+    common.compare_corpus(rep, info, OPS, nontrivial=nontrivial, oracle=oracle)
 
 
 def replay(rep, path):
